@@ -25,6 +25,11 @@ func (windowChooser) Pick(s *sched.Session, enabled []*sched.Task) *sched.Task {
 			return t
 		}
 	}
+	for _, t := range enabled {
+		if t.Name == "closer" {
+			return t
+		}
+	}
 	return enabled[0]
 }
 
@@ -33,6 +38,27 @@ func TestRegressC08_LostWakeup(t *testing.T) {
 		{Readers: []int{1, 1}, Writers: [][]int{{8, 8}}},
 		{Readers: []int{1, 1, 1}, Writers: [][]int{{8, 8, 8}}},
 		{Readers: []int{1, 1}, Writers: [][]int{{8}, {9}}},
+	} {
+		var msg string
+		runScenario(sc, windowChooser{}, nil, func(string, ...any) {}, func(f string, a ...any) {
+			if msg == "" {
+				msg = fmt.Sprintf(f, a...)
+			}
+		})
+		if msg != "" {
+			t.Fatalf("%s: %s", sc, msg)
+		}
+	}
+}
+
+
+// Seeded change C08-eof-on-closed-notify: two readers in the window, two
+// writes and Close before either reader parks; the second reader must not be
+// told end-of-file while a packet remains.
+func TestRegressC08_CloseWithTwoReadersInWindow(t *testing.T) {
+	for _, sc := range []scenario{
+		{Readers: []int{1, 1}, Writers: [][]int{{8, 8}}, Close: true},
+		{Readers: []int{2, 1}, Writers: [][]int{{8, 9, 10}}, Close: true},
 	} {
 		var msg string
 		runScenario(sc, windowChooser{}, nil, func(string, ...any) {}, func(f string, a ...any) {
